@@ -315,6 +315,9 @@ func (m *chainModel) buildOp(op c29Op, tip *node) (*types.Header, string) {
 			h.GasUsed = h.GasLimit
 		}
 		label += fmt.Sprintf(":%d", op.Arg%6)
+		if e.ad.gasDiv == 0 {
+			label += ":unjudged" // this router documents no gas-limit delta rule
+		}
 		resign(ki)
 	case "gas-used":
 		h.GasUsed = h.GasLimit + 1 + uint64(op.Arg)
